@@ -1,4 +1,5 @@
 mod c04;
+mod c09;
 mod c12;
 mod c11;
 mod c13;
@@ -32,6 +33,9 @@ fn main() {
         "reflect" => reflect::run(&out),
         "c01" | "c03" | "c10" => storetrace::run(&out, seed, thorough, &cmd),
         "c04" => c04::run(&out, seed, thorough),
+        "c09" => c09::run(&out, seed, thorough),
+        "c09-probe" => c09::probe_main(&args),
+        "c09-stream" => c09::stream_main(&args, &out, seed, thorough),
         "c12" => c12::run(&out, seed, thorough),
         "c11" => c11::run(&out, seed, thorough),
         "c13" => c13::run(&out, seed, thorough),
